@@ -32,6 +32,8 @@ import Pog.Lemmas.GenCode
 -/
 -- MODULE Pog.Props.C02b
 -- MODULE Pog.Props.C02c
+-- MODULE Pog.Props.C02d
+-- INDEX Pog.C02d: model_invariant_under_permutation3
 -- INDEX Pog.C02c: parse_perm_invariant_partial3
 -- INDEX Pog.C02b: parse_perm_invariant_partial2
 -- INDEX Pog.DcProps: sorted_props_is_sorted, sorted_props_order_independent, sorted_props_required_order_independent, generate_order_independent
